@@ -32,7 +32,7 @@ man = {
         "guard": "LJT_VERIF",
         "enable": "one hook: jpeg_gen_optimal_table() (src/jchuff.c) calls ljt_verif_codesize_hook(codesize, n) under #ifdef LJT_VERIF; the library itself is never built with the guard - the C19 harness compiles a private, renamed copy of jchuff.c from the working tree with -DLJT_VERIF (harness/ops_c19.c); everything else links the static libraries built from /repo's working tree and reaches internals through the repo's own private headers",
         "baseline_off_cmd": "cmake -G Ninja -S /repo -B /repo/_build -DCMAKE_BUILD_TYPE=Release && cmake --build /repo/_build && ctest --test-dir /repo/_build -j8 --timeout 900",
-        "source_commits": ["2dc8644"],
+        "source_commits": ["d486067"],
         "add_only": True,
     },
     "engines": [{
